@@ -18,6 +18,19 @@ type Mutex struct {
 func (x *Mutex) Lock()   { sched.MutexPoint(sched.OpLock, &x.m, "Mutex.Lock"); x.mu.Lock() }
 func (x *Mutex) Unlock() { sched.MutexPoint(sched.OpUnlock, &x.m, "Mutex.Unlock"); x.mu.Unlock() }
 
+// TryLock: a scheduling point whose answer is the lock's state when the thread is let on; on success the real
+// TryLock follows (it cannot fail then: the model mirrors the real lock).
+func (x *Mutex) TryLock() bool {
+	if !sched.Active() {
+		return x.mu.TryLock()
+	}
+	if !sched.MutexTry(sched.OpTryLock, &x.m, "Mutex.TryLock") {
+		return false
+	}
+	x.mu.Lock()
+	return true
+}
+
 type RWMutex struct {
 	mu sync.RWMutex
 	m  sched.MutexModel
@@ -29,6 +42,58 @@ func (x *RWMutex) RLock()  { sched.MutexPoint(sched.OpRLock, &x.m, "RWMutex.RLoc
 func (x *RWMutex) RUnlock() {
 	sched.MutexPoint(sched.OpRUnlock, &x.m, "RWMutex.RUnlock")
 	x.mu.RUnlock()
+}
+
+func (x *RWMutex) TryLock() bool {
+	if !sched.Active() {
+		return x.mu.TryLock()
+	}
+	if !sched.MutexTry(sched.OpTryLock, &x.m, "RWMutex.TryLock") {
+		return false
+	}
+	x.mu.Lock()
+	return true
+}
+
+func (x *RWMutex) TryRLock() bool {
+	if !sched.Active() {
+		return x.mu.TryRLock()
+	}
+	if !sched.MutexTry(sched.OpTryRLock, &x.m, "RWMutex.TryRLock") {
+		return false
+	}
+	x.mu.RLock()
+	return true
+}
+
+// RLocker as in sync.
+func (x *RWMutex) RLocker() sync.Locker { return (*rlocker)(x) }
+
+type rlocker RWMutex
+
+func (r *rlocker) Lock()   { (*RWMutex)(r).RLock() }
+func (r *rlocker) Unlock() { (*RWMutex)(r).RUnlock() }
+
+// Locker, Map: as in sync (a Map operation contains no scheduling point, it runs atomically).
+type Locker = sync.Locker
+type Map = sync.Map
+
+// Once: the function may contain scheduling points, so the internal lock must be one the scheduler knows.
+type Once struct {
+	done uint32
+	m    Mutex
+}
+
+func (o *Once) Do(f func()) {
+	if atomic.LoadUint32(&o.done) == 1 {
+		return
+	}
+	o.m.Lock()
+	defer o.m.Unlock()
+	if o.done == 0 {
+		defer atomic.StoreUint32(&o.done, 1)
+		f()
+	}
 }
 
 type WaitGroup struct {
@@ -141,4 +206,3 @@ func (p *Pool) Get() interface{} {
 }
 
 // Once is passed through.
-type Once = sync.Once
